@@ -108,7 +108,7 @@ def generate(rng, opts):
     all_branches = [b for c in commits for b in c["branches"]]
     state = {
         # the user may own a branch that is named like the temporary one of any reference
-        "collide_branch": rng.choice([False] * 6 + ["v1", rng.choice(refs_pool)]) if (refs_pool := all_tags + all_branches + ["HEAD", "main"]) else False,
+        "collide_branch": rng.choice([False] * 6 + ["v1", rng.choice(refs_pool)]) if (refs_pool := all_tags + all_branches + ["HEAD", "main", "@", "@"]) else False,
         "detached": rng.random() < 0.2,
         # directory names are the user's choice: they may look like a (normalised) reference
         "repo_dirname": rng.choice(["repo", "repo", "repo", "main", "v1", "HEAD"]),
@@ -117,6 +117,8 @@ def generate(rng, opts):
         "work_in_linked_worktree": rng.random() < 0.25,
         # $TMPDIR reached through a symbolic link (macOS /tmp, /var): Git reports real paths
         "tmp_symlinked": rng.random() < 0.2,
+        # $TMPDIR is a folder of the project itself (CI set-ups do that): temporary paths are below the working directory
+        "tmp_in_repo": rng.random() < 0.12,
         # a post-checkout hook configured in the repository (git-lfs installs one): it runs at the end of
         # `git worktree add`, whose exit status is the hook's
         "post_checkout_hook": rng.choice([None, None, None, None, "ok", "fails"]),
@@ -130,6 +132,8 @@ def generate(rng, opts):
         # variables name that repository; only judged for load_git with an explicit `repo`)
         "hook_env": rng.choice([None, None, None, None, "index", "index+dir", "other-repo"]),
         "submodule": rng.random() < 0.12,
+        # the user's message language: Git's refusals and complaints come translated (catalogues fr/de are installed)
+        "locale": rng.choice([None, None, None, None, None, "fr", "de"]),
         "dirty": rng.sample(["modified", "staged", "untracked", "ignored"], rng.choice([0, 0, 1, 2, 3])),
         "user_worktree": rng.choice([None, None, None, None, "live", "live", "live", "stale"]) if all_branches else None,
     }
@@ -155,15 +159,18 @@ def generate(rng, opts):
             if fk == "git":
                 how = rng.choice(["oserror", "nonzero", "kbi_before", "kbi_after", "killed_midway", "fails_after_branch"])
                 at = rng.choice(["assert", "toplevel", "tag", "add", "add"])
-                if False and at == "add" and how == "kbi_after":
-                    how = "kbi_before"
+                if rng.random() < 0.3 and not opts.get("no_cleanup_faults"):
+                    # one interruption (or one transient spawn failure) while the temporary checkout is being removed:
+                    # the clean-up commands are idempotent, so an implementation can finish the job before propagating
+                    at = rng.choice(CLEANUP)
+                    how = rng.choice(["kbi_before", "kbi_after", "kbi_after", "oserror"])
                 faults.append({"kind": "git", "at": at, "nth": rng.choice([0, 0, 1]), "how": how})
             elif fk == "read":
                 faults.append({"kind": "read", "file": rng.choice(["a.py", "b.py", "__init__.py"]), "how": rng.choice(["oserror", "undecodable", "truncated"])})
             elif fk == "ext":
                 faults.append({"kind": "ext", "nth": rng.choice([0, 1, 2, 3, 5, 8, 13, 21, 40]), "how": rng.choice(["exception", "kbi", "systemexit"])})
             elif fk == "ext_write":
-                faults.append({"kind": "ext", "nth": rng.choice([0, 1, 3, 8]), "how": rng.choice(["write_file", "write_file", "detach_checkout"])})
+                faults.append({"kind": "ext", "nth": rng.choice([0, 1, 3, 8]), "how": rng.choice(["write_file", "write_file", "detach_checkout", "chdir"])})
             else:
                 faults.append({"kind": "bytecode"})
         if r < 0.6:
@@ -347,6 +354,7 @@ class SubprocessShim:
         self.ctx = ctx
         self.counts = {}
         self.sites = []
+        self.cleanup_fault_fired = False
 
     @staticmethod
     def site(args):
@@ -375,9 +383,14 @@ class SubprocessShim:
         kw.setdefault("env", {**os.environ, **GIT_ENV})  # what Griffe's child inherits (incl. hook variables, if any)
         if not kw.get("capture_output") and "stderr" not in kw:
             kw["stderr"] = real_subprocess.DEVNULL  # git's own complaints go to the inherited fd 2 otherwise
-        if site not in CLEANUP:  # cleanup commands are never made to fail: no implementation could clean up without them
+        # clean-up commands are only ever hit by ONE fault per operation, and only by an interruption or a transient
+        # spawn failure (no implementation could clean up if they kept failing)
+        cleanup_ok = site not in CLEANUP or not self.cleanup_fault_fired
+        if cleanup_ok:
             for f in self.faults:
-                if f["at"] == site and f["nth"] == n:
+                if f["at"] == site and f["nth"] == n and (site not in CLEANUP or f["how"] in ("kbi_before", "kbi_after", "oserror")):
+                    if site in CLEANUP:
+                        self.cleanup_fault_fired = True
                     self.ctx.fault(f"git-{site}-{f['how']}")
                     if f["how"] == "oserror":
                         raise OSError(12, "Cannot allocate memory (injected spawn failure)")
@@ -499,6 +512,10 @@ def make_fault_extension(griffe, faults, ctx, counter, tmp_prefix):
                         os.makedirs(d, exist_ok=True)
                         with open(os.path.join(d, "written-by-extension.pyc"), "wb") as fh:
                             fh.write(b"\0")
+                    if f["how"] == "chdir":
+                        # code run during loading changes the working directory and does not come back (an inspected
+                        # module's import-time `os.chdir`, a sloppy extension): a relative `repo` now names nothing
+                        os.chdir(os.path.dirname(tmp_prefix.rstrip(os.sep)))
                     if f["how"] == "detach_checkout" and where is not None and str(where).startswith(tmp_prefix):
                         # code run during loading (a build step, `git init`, a clean-up script) removes the link file
                         # that ties the temporary checkout to the repository - only ever inside Griffe's checkout
@@ -664,7 +681,7 @@ def execute(plan, ctx):
     if world["state"].get("tmp_symlinked"):
         tmp_for_griffe = os.path.join(root, "tmp-link")
         os.symlink(tmpdir, tmp_for_griffe)
-    old_env = {k: os.environ.get(k) for k in GIT_ENV}
+    old_env = {k: os.environ.get(k) for k in (*GIT_ENV, "LANGUAGE")}
     old_cwd = os.getcwd()
     old_tempdir = tempfile.tempdir
     old_names = tempfile._get_candidate_names
@@ -678,6 +695,15 @@ def execute(plan, ctx):
         if world["state"].get("work_in_linked_worktree") and world["state"]["user_worktree"] == "live" and os.path.isdir(linked):
             repo = linked
         os.chdir(repo)
+        if world["state"].get("tmp_in_repo"):
+            tmpdir = tmp_for_griffe = os.path.join(repo, ".griffe-tmp")
+            os.makedirs(tmpdir)
+            ctx.fault("tmpdir-below-working-directory")
+        if world["state"].get("locale"):
+            # (the harness's own git commands keep LC_ALL=C, see _env)
+            os.environ["LC_ALL"] = "C.UTF-8"
+            os.environ["LANGUAGE"] = world["state"]["locale"]
+            ctx.fault("git-messages-translated")
         tempfile.tempdir = tmp_for_griffe
         names = _names_iter(str(plan.get("seed", 0)))
         tempfile._get_candidate_names = lambda: names
@@ -912,8 +938,8 @@ def shrink_candidates(plan):
             yield {**plan, "ops": ops[:i] + [{**op, "api": "check"}] + ops[i + 1 :]}
     world = plan["world"]
     st = world["state"]
-    for key, simple in (("collide_branch", False), ("detached", False), ("user_worktree", None), ("repo_dirname", "repo"), ("user_worktree_dirname", "user-wt"), ("work_in_linked_worktree", False), ("tmp_symlinked", False), ("post_checkout_hook", None), ("remote_tracking", False), ("auto_setup_merge", None), ("hook_env", None), ("submodule", False)):
-        if st[key] != simple:
+    for key, simple in (("collide_branch", False), ("detached", False), ("user_worktree", None), ("repo_dirname", "repo"), ("user_worktree_dirname", "user-wt"), ("work_in_linked_worktree", False), ("tmp_symlinked", False), ("post_checkout_hook", None), ("remote_tracking", False), ("auto_setup_merge", None), ("hook_env", None), ("submodule", False), ("locale", None), ("tmp_in_repo", False)):
+        if st.get(key, simple) != simple:
             yield {**plan, "world": {**world, "state": {**st, key: simple}}}
     for red in core.list_reductions(st["dirty"]):
         yield {**plan, "world": {**world, "state": {**st, "dirty": red}}}
@@ -956,7 +982,7 @@ class _Prop:
         "extension raising Exception / KeyboardInterrupt / SystemExit at its n-th hook call or writing files into "
         "the checkout, bytecode caching by inspected imports. Full repository snapshot equality and empty temp dir "
         "after every operation; usability of returned objects after success. Non-trivial = every run; distinct = "
-        "distinct (operation/outcome/fault trace, layout, dirty state, worktree state). Also drawn: Git shorthand refs (@, @^), $TMPDIR behind a symlink, a post-checkout hook (succeeding or failing), user-chosen directory names for the repository and the linked worktree (incl. names that look like normalised refs), operating from a linked worktree, a user branch colliding with the temporary name of any ref, repository argument as absolute / . / relative / Path, a public package that re-exports from a private sibling package of the same checkout; after success aliases into the checkout must be usable and a changed parameter list of the public function must be reported by check. Round j/k: remote-tracking refs and branch.autoSetupMerge; the git child killed half-way through `worktree add` (branch created, worktree registered and still locked 'initializing', index locked, directory partly populated)."
+        "distinct (operation/outcome/fault trace, layout, dirty state, worktree state). Also drawn: Git shorthand refs (@, @^), $TMPDIR behind a symlink, a post-checkout hook (succeeding or failing), user-chosen directory names for the repository and the linked worktree (incl. names that look like normalised refs), operating from a linked worktree, a user branch colliding with the temporary name of any ref, repository argument as absolute / . / relative / Path, a public package that re-exports from a private sibling package of the same checkout; after success aliases into the checkout must be usable and a changed parameter list of the public function must be reported by check. Round r: one interruption or transient spawn failure inside the clean-up commands, an extension changing the working directory, $TMPDIR inside the repository, translated git messages, a user branch named `griffe-`. Round j/k: remote-tracking refs and branch.autoSetupMerge; the git child killed half-way through `worktree add` (branch created, worktree registered and still locked 'initializing', index locked, directory partly populated)."
     )
     COMPONENTS = {
         "real": ["_griffe.git (tmp_worktree, assert_git_repo, get_latest_tag, get_repo_root)", "_griffe.loader.load_git", "_griffe.cli.check / main", "_griffe.diff", "git 2.39 binary", "real repository and checkout on tmpfs"],
@@ -966,7 +992,7 @@ class _Prop:
     ASSUMPTIONS = [
         "interruption = KeyboardInterrupt at a Python-visible point; SIGKILL/power loss of the *Python* process necessarily leaves the checkout behind and is out of scope",
         "a git child killed half-way through `worktree add` is emulated (real `worktree add --no-checkout` + `worktree lock --reason initializing` + index.lock + a partial file, exit status -9); the emulated state was compared with the one a real SIGKILL during a blocking smudge filter leaves (git 2.39)",
-        "cleanup commands (worktree remove/prune, branch -D) are never made to fail by injection",
+        "cleanup commands (worktree remove/prune, branch -D) are hit by at most one interruption / transient spawn failure per operation; they are never made to fail persistently (no implementation could clean up without them)",
         "sampling, not enumeration",
     ]
 
